@@ -36,6 +36,10 @@ type S struct {
 	PassThrough bool
 	// OnGate, when set, is called (in the gated goroutine) before parking.
 	OnGate func(name string, point uint16, key int64)
+	// OnAny, when set, is called for every gate hit by any goroutine (registered or not).
+	OnAny func(point uint16, key int64)
+	// NoPark lists points that never park (event-only gates, e.g. those hit under a mutex).
+	NoPark map[uint16]bool
 }
 
 // New creates a scheduler and installs it as the verifhook handler.
@@ -89,11 +93,17 @@ func (s *S) Go(name string, f func()) {
 	<-ready
 }
 
+// Park parks the calling controlled goroutine at a harness-defined point.
+func (s *S) Park(point uint16, key int64) { s.gate(point, key) }
+
 func (s *S) gate(point uint16, key int64) {
+	if s.OnAny != nil {
+		s.OnAny(point, key)
+	}
 	id := gid()
 	s.mu.Lock()
 	name, ok := s.names[id]
-	if !ok || s.PassThrough {
+	if !ok || s.PassThrough || s.NoPark[point] {
 		s.mu.Unlock()
 		return
 	}
